@@ -1,7 +1,7 @@
 (* C05 - Triangle evaluation equals the bivariate Bernstein definition. Statements only. *)
 From Coq Require Import List Arith ZArith QArith Qcanon Reals.
 From BZ Require Import Base.Ops Base.QcInst Model.Curve Model.Triangle Model.TrianglePy
-  Theory.CurveEval Theory.CurveEvalExtra Theory.TriEval Theory.TriEdges Base.RInst Gen.PyCurveHelpers Theory.CurveTables Theory.Rounding Theory.TriRound.
+  Theory.CurveEval Theory.CurveEvalExtra Theory.TriEval Theory.TriEdges Base.RInst Gen.PyCurveHelpers Theory.CurveTables Theory.Rounding Theory.TriRound Theory.TriCorners.
 Import ListNotations.
 
 (* evaluate_barycentric (row-wise curve evaluation, running binomial, Horner in lambda3) equals
@@ -39,6 +39,22 @@ Print Assumptions C05_edges_are_restrictions.
 Theorem C05_running_binomial_exact_double : forallb tri_binom_exact_double (seq 1 54) = true.
 Proof. exact tri_binom_double_exact_to_54. Qed.
 Print Assumptions C05_running_binomial_exact_double.
+
+(* CORNERS: the three corners are interpolated EXACTLY (bit-for-bit) in any arithmetic in which 0 and 1 behave (Laws01: IEEE-754 on
+   finite values) and in which the running binomial recurrence of the evaluator is exact for the degree (binom_exact_in: true in every
+   field of characteristic 0, and for binary64 up to degree 54 by the computation C05_running_binomial_exact_double).  No ring law. *)
+Theorem C05_corners_are_interpolated_exactly :
+  forall (T : Type) (K : Ops T), Laws01 K -> forall (thr d : nat), binom_exact_in K d ->
+  forall v : list T, (1 <= d)%nat -> length v = tri_size d ->
+  tri_eval K thr d v (o1 K) (o0 K) (o0 K) = hd (o0 K) v /\
+  tri_eval K thr d v (o0 K) (o1 K) (o0 K) = nth d v (o0 K) /\
+  tri_eval K thr d v (o0 K) (o0 K) (o1 K) = last v (o0 K).
+Proof. exact @tri_eval_corners. Qed.
+Print Assumptions C05_corners_are_interpolated_exactly.
+Theorem C05_binomial_recurrence_exact_in_every_field :
+  forall (T : Type) (K : Ops T), field_of K -> char0 K -> forall d, binom_exact_in K d.
+Proof. exact @binom_exact_in_field. Qed.
+Print Assumptions C05_binomial_recurrence_exact_in_every_field.
 
 (* ROUNDING (standard model of floating point, as in C01): the model of evaluate_barycentric executed in any arithmetic
    `fl` with relative error u per operation that represents integers with odd part < 2^53 exactly differs from the
